@@ -34,6 +34,10 @@ def form_initial(nodes_idx, lab, form, n):
         return frozenset(labs)
     if form == 'dictkeys':
         return {x: True for x in labs}.keys()
+    if form == 'iterator':
+        return iter(list(labs))
+    if form == 'generator':
+        return (x for x in list(labs))
     if form == 'single':
         return labs[0] if len(labs) == 1 else None
     if form == 'range':
@@ -277,6 +281,9 @@ def random_sim_case(r, sim, nmax=14, tmaxes=None):
         if model == 'SIR' and rest and r.random() < 0.45:
             case['R0'] = sorted(r.sample(rest, r.randint(1, min(3, len(rest)))))
             case['R0_form'] = r.choice(['list', 'set', 'tuple'] if lab_scheme not in ('tuple', 'mixed') else ['list', 'set'])
+            if sim in ('fast_SIR', 'fast_nonMarkov_SIR') and r.random() < 0.3:
+                # documented as "iterable of nodes": a one-shot iterator (generator, G.neighbors(x)) is an iterable
+                case['R0_form'] = r.choice(['iterator', 'generator'])
             if sim in ('discrete_SIR', 'basic_discrete_SIR', 'percolation_based_discrete_SIR') and r.random() < 0.35:
                 # these three document initial_recovereds "as for initial_infecteds": a single node is allowed
                 case['R0'] = case['R0'][:1]
